@@ -47,11 +47,11 @@ static Reg r_ctor("c13_ctor", [](const Args& a) {
   const Ctor* c = nullptr; for (auto& k : ctors()) if (k.name == a[0]) c = &k;
   if (!c || int(a.size()) != c->np + 1) { emit("!noctor"); bad("harness", "unknown constructor " + a[0]); return; }
   std::vector<double> p; for (int i = 0; i < c->np; ++i) p.push_back(unhx(a[1 + i]));
-  alarm(120);
+  arm(120);
   std::string e;
   built() = false;
   bool done = with_timeout(3.0, [&] { e = guarded([&] { c->make(p.data()); }); });
-  alarm(0);
+  arm(0);
   bool ext = false; for (double v : p) if (!std::isnan(v) && !(std::fabs(v) <= 1e100)) ext = true;
   bool far = false; for (double v : p) if (std::isfinite(v) && v != 0 && (std::fabs(v) > 1e12 || std::fabs(v) < 1e-12)) far = true;
   if (!done) {
